@@ -16,6 +16,8 @@ From crates/usvg/src/parser/{converter.rs, switch.rs, shapes.rs, svgtree/mod.rs,
   shape_len_checks, poly_min_points   the `is_valid_length` tests and the point-count test of shapes.rs
   gen_prefixes            the format strings of Cache::gen_*_id
   attr_ns_kept            namespaces whose attributes parse_svg_element copies
+  valid_ts_tests          the conjuncts of the final test of SvgNode::has_valid_transform (tiny-skia is_valid; determinant above
+                          f32::EPSILON relative to |ad| + |bc|, as of 427fd1e)
   special_attr_lookups    how the `style`, `id` and `class` XML attributes are looked up (plain-string roxmltree lookup =
                           attribute without a namespace; a local-name comparison would accept foreign-namespace ones)
   style_element_lookup    how resolve_css finds `style` elements
@@ -103,6 +105,7 @@ DEFAULTS = {
     'poly_min_points': 'N := 2%N',
     'gen_prefixes': 'list string := ["linearGradient"; "radialGradient"; "pattern"; "clipPath"; "mask"; "filter"; "image"]',
     'attr_ns_kept': 'list attr_ns := [ANS_None; ANS_Svg; ANS_Xlink; ANS_Xml]',
+    'valid_ts_tests': 'list ts_test := [TT_IsValid; TT_DetRelTol]',
     'special_attr_lookups': 'list (special_attr * lookup_kind) := [(SA_Style, LK_NoNamespace); (SA_Id, LK_NoNamespace); (SA_Class, LK_NoNamespace)]',
     'style_element_lookup': 'lookup_kind := LK_SvgNamespace',
     'css_facts': 'list css_fact := [CF_ParentElement; CF_PrevSiblingElement; CF_FirstChildViaPrevSibling; CF_AttrMatchNoNamespace]',
@@ -443,3 +446,24 @@ def extract(api, src, put, group):
         if len(facts) != 4:
             raise Miss("simplecss::Element for XmlNode: %d of 4 facts found (%s)" % (len(facts), ', '.join(facts)))
     group(sec_special)
+
+    def sec_valid_ts():  # has_valid_transform
+        b = body_of(api, conv, 'has_valid_transform')
+        need(r"let attr = match self\.attribute\(aid\) \{ Some\(attr\) => attr, None => return true, \}; "
+             r"let ts = match svgtypes::Transform::from_str\(attr\) \{ Ok\(v\) => v, Err\(_\) => return true, \};", b,
+             "has_valid_transform: absent / unparsable attribute is valid")
+        m = need(r"\); (?:let ad = ts\.sx as f64 \* ts\.sy as f64; let bc = ts\.kx as f64 \* ts\.ky as f64; )?([^;{}]*) \}$", b,
+                 "has_valid_transform: final test")
+        tests = []
+        for c in m.group(1).split(' && '):
+            c = c.strip()
+            if c == 'ts.is_valid()':
+                tests.append('TT_IsValid')
+            elif c == '(ad - bc).abs() > f32::EPSILON as f64 * (ad.abs() + bc.abs())':
+                if 'let ad = ts.sx as f64 * ts.sy as f64; let bc = ts.kx as f64 * ts.ky as f64;' not in b:
+                    raise Miss("has_valid_transform: ad / bc are not the determinant terms")
+                tests.append('TT_DetRelTol')
+            else:
+                raise Miss("has_valid_transform: unknown conjunct %r" % c)
+        put('valid_ts_tests', 'list ts_test', coq_list(tests))
+    group(sec_valid_ts)
